@@ -155,6 +155,19 @@ def check(run):
         from checks import cxx_runtime
 
         cxx_runtime.check_c10(run)
+        # compiled C++ step traces (always): ordinary times, and times well above 1 s with microsecond remainders
+        cfails = 0
+        cases = [(1, 1, 0.0, 0.23, 0.05), (0, 0, 5000.0, 5000.0 + 0.3 + 5e-7, 0.1), (1, 0, 86400.25, 86400.25 - 0.2 - 3e-6, 0.1), (0, 1, -5000.0, -5000.0 + 3e-6, 0.05)]
+        if run.tier == "thorough":
+            cases += [(1, 1, 86400.25, 86400.25 + 0.25 + 1.5e-8, 0.25), (0, 0, 5000.0, 5000.0 - 0.1 - 2e-9, 0.1), (0, 0, 1.0, 0.77, 0.05), (1, 0, 5000.0, 5000.0, 0.1)]
+        for hc, hk, t0, t1, mx in cases:
+            run.native_runs += 1
+            good, why, steps = cxx_runtime.native_c10(bool(hc), bool(hk), t0, t1, mx)
+            if not good:
+                cfails += 1
+                run.findings.append(Finding("C10.cxx.processUpdate.native_sweep", f"u{hc}c{hk}", f"compiled C++ runtime (control={bool(hc)}, calibration={bool(hk)}) {t0!r}->{t1!r} max {mx}: {why}", {"language": "c++", "configuration": {"has_control": bool(hc), "has_calibration": bool(hk)}, "inputs": {"t0": t0, "t1": t1, "max_dt_sec": mx}, "native_steps": steps[:50], "oracle_verdict": why}, True))
+                break
+        run.bounded.append({"what": "compiled C++ ManagedFilter with a recording Impl: step traces judged by stepping_ok, incl. times of 5000 s / 86400 s with microsecond remainders", "bound": f"{len(cases)} (configuration, t0, t1, max_dt) cases", "failures": cfails, "counted_as_proved": False})
     except ImportError:
         run.notes.append("C++ side not built yet")
     need_sweep = run.tier == "thorough" or any(r.status != "ok" for r in run.reports) or run.undecided
